@@ -144,20 +144,7 @@ def grd4(P, R, L):
 
     def none_edges(b):
         """edges on which maybe_bad_database_state is known to be None"""
-        edges = []
-        for bb in range(b.n):
-            t = b.term(bb)
-            if t["k"] != "call" or not t["args"]:
-                continue
-            from ..cfg import strip_generics
-            nm = strip_generics(t.get("resolved") or t.get("callee"))
-            if nm not in ("std::option::Option::is_some", "std::option::Option::is_none"):
-                continue
-            if not any("maybe_bad_database_state" in o.path for o in origins(b, t["args"][0])):
-                continue
-            for tt in bool_tests(b, t["dest"]["l"]):
-                edges += tt.err_edges() if nm.endswith("is_some") else tt.ok_edges()
-        return edges
+        return K.field_option_edges(b, "maybe_bad_database_state")[1]
 
     mr = P.body(K.MAKE_ROOM)
     if mr is None:
